@@ -292,7 +292,7 @@ def enum_cases(tier, rng, out):
 
 # ---------------------------------------------------------------- records
 def cksum_cases(tier, rng, out):
-    n = {"quick": 2500, "search": 6000, "thorough": 250000}[tier]
+    n = {"quick": 2500, "search": 6000, "thorough": 500000}[tier]
     tags = ["md5", "sha1", "sha256", "sha512"]
     for tag in tags:
         for sz in SIZES:
@@ -324,7 +324,7 @@ def cksum_cases(tier, rng, out):
         out.p(tag, t)
 
 def file_cases(tier, rng, out):
-    n = {"quick": 2500, "search": 6000, "thorough": 250000}[tier]
+    n = {"quick": 2500, "search": 6000, "thorough": 500000}[tier]
     prios = enum_info("priority")
     names = prios["variants"] or ["Optional"]
     kws = list(prios["keywords"].values()) or ["optional"]
@@ -353,7 +353,7 @@ def file_cases(tier, rng, out):
 SAFE_KEYS = ["arch", "profile", "essential", "k", "a", "protected", "x-y", "é"]
 SAFE_VALS = ["any", "all", "!stage1", "yes", "", "linux-any,kfreebsd-any", "v", "1"]
 def ple_cases(tier, rng, out):
-    n = {"quick": 2500, "search": 6000, "thorough": 250000}[tier]
+    n = {"quick": 2500, "search": 6000, "thorough": 500000}[tier]
     prios = enum_info("priority")
     names = prios["variants"] or ["Optional"]
     kws = list(prios["keywords"].values()) or ["optional"]
